@@ -1,10 +1,11 @@
 SPECIFICATION Spec
 CONSTANTS
   MaxSegs = 4
-  SegAlphabet = {"..", "a", "L1", "index.gmi"}
+  SegAlphabet = {"..", "a", "L1", "index.gmi", "root"}
   DevIndexNotRechecked = FALSE
   DevNoPctDecode = FALSE
   DevLoopLexical = FALSE
+  DevClimbAndReturn = FALSE
 CONSTRAINT HasLoop
 INVARIANT Safe
 INVARIANT Reachable
